@@ -1103,6 +1103,12 @@ func (c *Conn) writeRequest(ctx *Ctx) error {
 		c.setLastErr(err)
 		// if we had any error, remove it from the reqQueued.
 		c.dequeueReq(id)
+
+		// deletePending takes the Ctx to close a streamed body, and the lock is
+		// not reentrant: still holding it here left the write loop waiting for
+		// itself, and every request on the connection stranded with it.
+		release()
+
 		c.deletePending(id)
 
 		return err
